@@ -423,7 +423,7 @@ pub fn gen_faults(rng: &mut Rng, stream: &Stream, n: usize, enabled: u32) -> Vec
                         let g = &s.insts[rng.usize_below(s.insts.len())];
                         (rng.range(1, 6) as u32) << 16 | g.opcode as u32
                     }
-                    5 => MAGIC.swap_bytes(),
+                    5 => if rng.chance(1, 2) { MAGIC.swap_bytes() } else { MAGIC },
                     _ => old | 0xFFFF_0000,
                 };
                 Fault::Word(i, v)
@@ -432,7 +432,7 @@ pub fn gen_faults(rng: &mut Rng, stream: &Stream, n: usize, enabled: u32) -> Vec
             13 => {
                 let n = rng.range(1, 3) as usize;
                 let pos = if rng.chance(1, 2) && !starts.is_empty() { *rng.pick(&starts) } else { rng.usize_below(nwords + 1) };
-                Fault::Garbage(pos, (0..n).map(|_| rng.word()).collect())
+                Fault::Garbage(pos, (0..n).map(|_| if rng.chance(1, 6) { MAGIC } else { rng.word() }).collect())
             }
             14 => {
                 if !rng.chance(1, 6) {
